@@ -119,6 +119,93 @@ def unit_convert():
     return u
 
 
+def unit_names(part=0, parts=1):
+    """--type / --command name lookup: a name is accepted iff it is exactly a type name / command-code name; every other
+    spelling is refused (non-zero, message on stderr, no decode).  Evaluated for every command code and every type name with
+    a family of near-miss spellings (one extra leading / trailing character, dropped first / last character, case changes,
+    spec-style prefixes)."""
+    Mn = MAIN()
+    from tpmstream.spec import all_types
+    from tpmstream.spec.commands import Response
+    from tpmstream.spec.structures.constants import TPM_CC
+
+    u = UnitResult(f"C19/NAMES/part{part}")
+    u.functions = ["tpmstream.__main__:convert", "tpmstream.__main__:fuzzy_match", "tpmstream.__main__:cc_name"]
+    cc_names = {Mn.cc_name(cc): cc for cc in TPM_CC}
+    type_names = {t.__name__: t for t in all_types}
+
+    def near_misses(n):
+        out = {c + n for c in "TPMC_2tx "} | {n + c for c in "x_ 2"} | {n[1:], n[:-1], n.lower(), n.upper(), n.swapcase(), "TPM_CC_" + n, "TPM2_" + n, "CC_" + n, "PM_" + n, n + n}
+        return sorted(x for x in out if x)
+
+    def run(typ, cmd):
+        ctx = Ctx()
+        calls = {"marshal": [], "print": []}
+
+        def marshal_stub(I, args, kwargs):
+            calls["marshal"].append(dict(kwargs))
+            return iter(())
+            yield
+
+        def unmarshal_stub(I, args, kwargs):
+            return iter(())
+            yield
+
+        def print_stub(I, args, kwargs):
+            calls["print"].append((tuple(args), dict(kwargs)))
+            return None
+            yield
+
+        def files_stub(I, args, kwargs):
+            return b""
+            yield
+
+        stubs = {print: print_stub, Mn.bytes_from_files: files_stub, Mn.Binary.marshal: marshal_stub, Mn.Pretty.unmarshal: unmarshal_stub}
+        args = _types.SimpleNamespace(format_in="binary", format_out="pretty", type=typ, command=cmd, file=())
+        I = Interp(ctx, stubs=stubs, force=[Mn.convert, Mn.fuzzy_match, Mn.cc_name])
+        try:
+            ret = run_sync(I.call(Mn.convert, (args,), {}))
+            return ("return", ret), calls
+        except PyExc as e:
+            return ("raise", type(e.exc).__name__), calls
+
+    bad = []
+    n_ok = n_refused = 0
+    for n, cc in list(cc_names.items())[part::parts]:
+        out, calls = run("Response", n)
+        if not (out == ("return", 0) and len(calls["marshal"]) == 1 and calls["marshal"][0].get("command_code") is cc and calls["marshal"][0].get("tpm_type") is Response):
+            bad.append(f"--command {n}: {out}")
+        n_ok += 1
+        for x in near_misses(n):
+            if x in cc_names:
+                continue
+            out, calls = run("Response", x)
+            n_refused += 1
+            if not (out[0] == "return" and isinstance(out[1], int) and out[1] != 0 and not calls["marshal"] and any(p[1].get("file") is not None for p in calls["print"])):
+                bad.append(f"--command {x!r} is not a command code name but was not refused: {out}, {len(calls['marshal'])} decode(s)")
+    _ob(u, f"C19/NAMES/part{part}/command-accepted-iff-exactly-a-command-code-name", not bad, f"{n_ok} names, {n_refused} near misses; " + "; ".join(bad[:4]))
+    bad = []
+    n_ok = n_refused = 0
+    names = sorted(type_names)
+    for n in (names[::7] + ["Command", "Response", "CommandResponseStream"])[part::parts]:
+        T = type_names[n]
+        if T is not Response:
+            out, calls = run(n, None)
+            ok = out == ("return", 0) and len(calls["marshal"]) == 1 and calls["marshal"][0].get("tpm_type") is T
+            if not ok:
+                bad.append(f"--type {n}: {out}")
+            n_ok += 1
+        for x in near_misses(n):
+            if x in type_names:
+                continue
+            out, calls = run(x, "Startup")
+            n_refused += 1
+            if not (out[0] == "return" and isinstance(out[1], int) and out[1] != 0 and not calls["marshal"] and any(p[1].get("file") is not None for p in calls["print"])):
+                bad.append(f"--type {x!r} is not a type name but was not refused: {out}")
+    _ob(u, f"C19/NAMES/part{part}/type-accepted-iff-exactly-a-type-name", not bad, f"{n_ok} names, {n_refused} near misses; " + "; ".join(bad[:4]))
+    return u
+
+
 def unit_parse_all_types():
     Mn = MAIN()
     from tpmstream.spec import all_types
@@ -242,7 +329,7 @@ def run(tier, seed, only=None):
     rep.trusted_base = ["pyvc's reading of Python", "argparse, sys.exit, difflib, file objects: not modelled (not claimed)"]
     rep.assumptions = ["the library calls are stubs here: their behaviour is C01-C15"]
     rep.replayer = replayer
-    jobs = [(unit_convert, ()), (unit_parse_all_types, ()), (unit_small, ())]
+    jobs = [(unit_convert, ())] + [(unit_names, (i, 12)) for i in range(12)] + [(unit_parse_all_types, ()), (unit_small, ())]
     if only:
         jobs = [j for j in jobs if only in repr(j)]
     rep.add(run_units(jobs))
